@@ -786,6 +786,8 @@ def strict_read(stream: bytes, max_messages: int = 50):
             v = cls[0]
             if not re.fullmatch(rb"[0-9]+", v):
                 return msgs, ("reject", "Content-Length is not 1*DIGIT")
+            if len(v) > 18:
+                return msgs, ("dontcare", "absurdly long Content-Length")
             ln = int(v)
             if n - p < ln:
                 m.body = stream[p:]
@@ -805,3 +807,130 @@ def strict_read(stream: bytes, max_messages: int = 50):
                 return msgs, ("dontcare", "bytes after a message that asked to close")
             return msgs, ("ok", None)
     return msgs, ("ok", None)
+
+
+# --------------------------------------------------------------------------- independent response framer
+@dataclass
+class Resp:
+    status: int = 0
+    reason: bytes = b""
+    version: bytes = b""
+    headers: list = field(default_factory=list)
+    body: bytes = b""
+    complete: bool = False
+    framing: str = ""
+    start: int = 0
+    end: int = 0
+
+    def get(self, name: bytes, default=None):
+        for k, v in self.headers:
+            if k.lower() == name.lower():
+                return v
+        return default
+
+    def getall(self, name: bytes):
+        return [v for k, v in self.headers if k.lower() == name.lower()]
+
+
+def frame_responses(data: bytes, head_request_indexes=(), closed: bool = True):
+    """Split server output into responses the way a strict client would.
+
+    Returns (responses, problem) where problem is None or a string describing why the bytes
+    after the last well-formed response cannot be (the start of) a response.
+    The last response may be incomplete (complete=False)."""
+    out: list[Resp] = []
+    pos = 0
+    n = len(data)
+    idx = 0
+    while pos < n:
+        r = Resp(start=pos)
+        i = data.find(b"\r\n\r\n", pos)
+        if i < 0:
+            if not re.match(rb"HTTP/[0-9]\.[0-9] [0-9]{0,3}", data[pos:pos + 12]) and len(data) - pos >= 12:
+                return out, f"bytes at {pos} do not start a response: {data[pos:pos + 40]!r}"
+            r.complete = False
+            out.append(r)
+            return out, None
+        head = data[pos:i].split(b"\r\n")
+        m = re.fullmatch(rb"(HTTP/[0-9]\.[0-9]) ([0-9]{3})(?: (.*))?", head[0])
+        if not m:
+            return out, f"bad status line at {pos}: {head[0][:60]!r}"
+        r.version, r.status, r.reason = m.group(1), int(m.group(2)), m.group(3) or b""
+        for line in head[1:]:
+            if b":" not in line or line[:1] in b" \t" or b"\r" in line or b"\n" in line:
+                return out, f"bad header line in response {idx}: {line[:60]!r}"
+            k, v = line.split(b":", 1)
+            if not k or any(c not in TCHAR_B for c in k):
+                return out, f"bad header name in response {idx}: {k[:40]!r}"
+            r.headers.append((k, v.strip(b" \t")))
+        p = i + 4
+        te = r.getall(b"transfer-encoding")
+        cl = r.getall(b"content-length")
+        if 100 <= r.status < 200 or r.status in (204, 304) or idx in head_request_indexes:
+            r.framing = "none"
+            r.end = p
+            r.complete = True
+        elif te:
+            if cl:
+                return out, f"response {idx} has both Transfer-Encoding and Content-Length"
+            r.framing = "chunked"
+            body = bytearray()
+            q = p
+            while True:
+                j = data.find(b"\r\n", q)
+                if j < 0:
+                    r.body = bytes(body)
+                    out.append(r)
+                    return out, None
+                line = data[q:j]
+                sz = line.split(b";", 1)[0]
+                if not re.fullmatch(rb"[0-9A-Fa-f]+", sz):
+                    return out, f"response {idx}: bad chunk-size line {line[:40]!r} (bytes of another message inside the body?)"
+                size = int(sz, 16)
+                q = j + 2
+                if size == 0:
+                    # trailers
+                    while True:
+                        j = data.find(b"\r\n", q)
+                        if j < 0:
+                            r.body = bytes(body)
+                            out.append(r)
+                            return out, None
+                        if j == q:
+                            q += 2
+                            break
+                        q = j + 2
+                    break
+                if n - q < size + 2:
+                    body += data[q:q + size]
+                    r.body = bytes(body)
+                    out.append(r)
+                    return out, None
+                body += data[q:q + size]
+                if data[q + size:q + size + 2] != b"\r\n":
+                    return out, f"response {idx}: chunk data not followed by CRLF"
+                q += size + 2
+            r.body = bytes(body)
+            r.end = q
+            r.complete = True
+        elif cl:
+            if len(set(cl)) != 1 or not re.fullmatch(rb"[0-9]+", cl[0]):
+                return out, f"response {idx}: bad Content-Length {cl!r}"
+            ln = int(cl[0])
+            r.framing = "length"
+            r.body = data[p:p + ln]
+            if n - p < ln:
+                out.append(r)
+                return out, None
+            r.end = p + ln
+            r.complete = True
+        else:
+            r.framing = "eof"
+            r.body = data[p:]
+            r.end = n
+            r.complete = closed
+        out.append(r)
+        pos = r.end
+        if r.status >= 200:
+            idx += 1
+    return out, None
